@@ -16,7 +16,7 @@ NA = [
     {"property_id": "C14", "reason": "pure codec over values/byte order/pointer size: no history, schedule or fault dimension (DESIGN.md section 6)"},
 ]
 ALL = [f"C{i:02d}" for i in range(1, 21)]
-PENDING_ENGINES = {"machsim", "asmsim"}  # engines not yet reviewed by the lead
+PENDING_ENGINES = {"asmsim"}  # engines not yet reviewed by the lead
 
 def main():
     m = {
